@@ -66,12 +66,12 @@ def run(tier):
     rnd = random.Random(C.seed() + 17)
     if tier != "quick":
         scheds += PC2.schedules(chk, "two", 3, 0)
-    long = PC2.schedules(chk, "two", 30, 0, simulate="num=%d" % (12 if tier == "quick" else 60), label="two_long") if True else []
+    long = PC2.schedules(chk, "two", 30, 0, simulate="num=%d" % (12 if tier == "quick" else 150), label="two_long") if True else []
     rnd.shuffle(scheds)
     iso_algos = [a for a in A.ALGO_NAMES if a != "VROOM"]
     base = PC2.base_cfgs(tier, 3100000, iso_algos, 3 if tier == "quick" else 12, rng_free=True, seedoff=1, n_choices=(40, 64), vary=True)
     jobs = []
-    for k, sc in enumerate(scheds[: (40 if tier == "quick" else 400)] + long):
+    for k, sc in enumerate(scheds[: (40 if tier == "quick" else 1000)] + long):
         ca, cb = rnd.choice(base), rnd.choice(base)
         ca, cb = dict(ca, id=5000000 + 8 * k), dict(cb, id=5000000 + 8 * k + 4)
         if len(sc) <= 12:   # short exhaustive schedules: prefix of the run, the rest sequential
